@@ -870,13 +870,13 @@ var (
 	}
 )
 
-func extractDataRegexes(qs query.ConditionsSet, tagDetails map[string]query.TagDetails) *DataRegexes {
+func extractDataRegexes(qs query.ConditionsSet, refTime time.Time, tagDetails map[string]query.TagDetails) *DataRegexes {
 	dataConditions := DataRegexes{}
 	queue := []*query.ConditionsSet{&qs}
 	for len(queue) > 0 {
 		cs := *queue[0]
 		queue = queue[1:]
-		for _, ccs := range cs.InlineTagFilters(tagDetails) {
+		for _, ccs := range cs.InlineTagFilters(tagDetails, refTime) {
 			for _, cc := range ccs {
 				switch ccc := cc.(type) {
 				case *query.DataCondition:
@@ -905,7 +905,7 @@ func SearchStreams(ctx context.Context, indexes []*Reader, limitIDs *bitmask.Lon
 	if len(qs) == 0 {
 		return nil, false, nil, nil
 	}
-	qs = qs.InlineTagFilters(tagDetails)
+	qs = qs.InlineTagFilters(tagDetails, refTime)
 
 	var sortingLess func(a, b *Stream) bool
 	switch len(sorting) {
@@ -1125,7 +1125,7 @@ func SearchStreams(ctx context.Context, indexes []*Reader, limitIDs *bitmask.Lon
 	}
 	var dataRegexes *DataRegexes
 	if extractRegexes {
-		dataRegexes = extractDataRegexes(qs, tagDetails)
+		dataRegexes = extractDataRegexes(qs, refTime, tagDetails)
 	}
 	return results.streams[skip:], results.resultDropped != 0, dataRegexes, nil
 }
